@@ -147,6 +147,7 @@ fn _param_list_openqasm(p: &mut Parser<'_>, flavor: DefFlavor) {
 
     // Parse items until EOF or an end token is seen.
     while !p.at(EOF) && !at_list_end_token(p, flavor) {
+        let start_pos = p.position();
         let m = p.start();
 
         let inner_array_literal = p.at(T!['{']);
@@ -203,7 +204,9 @@ fn _param_list_openqasm(p: &mut Parser<'_>, flavor: DefFlavor) {
 
         // Items must be separated by commas.
         if !p.at(T![,]) {
-            if p.at_ts(PARAM_FIRST) {
+            // Continue without a comma only if this iteration consumed something. Otherwise input
+            // such as `def f(3)` or `extern f(x` would loop forever on the same token.
+            if p.at_ts(PARAM_FIRST) && p.position() > start_pos {
                 p.error("Expected `,`");
             } else {
                 break;
